@@ -36,6 +36,7 @@ ObsInit == [exact |-> TRUE,     \* FALSE when the harness knows the submit threa
             ccall |-> {},          \* futures on which cancel() has been called
             cret |-> {},           \* futures on which some cancel() call has returned
             ctrue |-> {},          \* futures for which cancel() returned True
+            fin |-> {},            \* futures seen FINISHED
             running |-> {},        \* futures whose callable is running right now (Invoke without InvokeEnd)
             crun |-> EmptyMap,     \* f -> TRUE if the callable was running when the pending cancel() was issued
             down |-> FALSE]
@@ -62,6 +63,7 @@ ObsNext(st, e) ==
     [] e.ev = "CancelCall" -> [st EXCEPT !.ccall = @ \cup {e.f}, !.crun = Put(@, e.f, e.f \in st.running)]
     [] e.ev = "CancelRet" -> [st EXCEPT !.cret = @ \cup {e.f}, !.ctrue = IF e.a = 1 THEN @ \cup {e.f} ELSE @]
     [] e.ev = "ShutdownCall" -> [st EXCEPT !.down = TRUE]
+    [] e.ev = "Observed" /\ e.s = "FINISHED" -> [st EXCEPT !.fin = @ \cup {e.f}]
     [] OTHER -> st
 
 IsAttempt(e) == e.ev = "DelegateSubmit" /\ e.s = "tap"
@@ -91,6 +93,9 @@ Clauses(st, e) ==
         e.ev = "End" => \A f \in DOMAIN st.dec :
             (st.dec[f] = 1 /\ f \notin st.ccall /\ ~st.down /\ st.delay[f] >= 0
                /\ st.endt[f] + st.delay[f] + SLACK < e.t) => st.subs[f] > st.ended[f]>>,
+     <<"C05_FinalOutcomeDelivered",   \* once the policy declined (or raised) the future carries the outcome
+        e.ev = "End" => \A f \in DOMAIN st.dec :
+            (st.dec[f] \in {0, 2} /\ f \notin st.ccall /\ ~st.down /\ st.open[f] = 0) => f \in st.fin>>,
      <<"C05_NotDoneBeforeFinal",
         ((e.ev = "Observed" /\ e.s = "FINISHED") \/ (e.ev = "Callback" /\ e.f \notin st.ccall)) /\ Has(st.dec, e.f) =>
             (st.open[e.f] = 0 /\ st.ended[e.f] >= 1 /\ (st.dec[e.f] \in {0, 2} \/ e.f \in st.ccall))>>,
